@@ -11,5 +11,6 @@ import (
 	_ "google.golang.org/protobuf/verifmc/checks/c10"
 	_ "google.golang.org/protobuf/verifmc/checks/c14"
 	_ "google.golang.org/protobuf/verifmc/checks/c16"
+	_ "google.golang.org/protobuf/verifmc/checks/c17"
 	_ "google.golang.org/protobuf/verifmc/checks/c30"
 )
